@@ -368,13 +368,13 @@ theorem idInv_step (s : St) (op : Op) (h : IdInv s) : IdInv (step s op) := by
         · exact h.pendNodup
       · simp only [hcfg]
         apply idInv_shrink s _ h
-        · apply sentIds_of_log s _ (if waiter then [Ev.subConfirmed l true] else []) (by simp [setSub])
+        · apply sentIds_of_log s _ (if waiter then [Ev.subConfirmed l true] else []) (by simp [activateSub])
           intro e he; split at he <;> simp at he; subst he; rfl
-        · simp [setSub]
-        · intro p hp; simpa [setSub] using hp
-        · simpa [setSub] using h.callsNodup
-        · intro p hp; simpa [setSub] using hp
-        · simpa [setSub] using h.pendNodup
+        · simp [activateSub]
+        · intro p hp; simpa [activateSub] using hp
+        · simpa [activateSub] using h.callsNodup
+        · intro p hp; simpa [activateSub] using hp
+        · simpa [activateSub] using h.pendNodup
   | notify sid =>
     simp only [step]
     split
@@ -397,15 +397,15 @@ theorem idInv_step (s : St) (op : Op) (h : IdInv s) : IdInv (step s op) := by
     split
     · exact h
     · apply idInv_shrink s _ h
-      · apply sentIds_of_log s _ (s.calls.map fun p => Ev.completed p.2 p.1 false) rfl
+      · apply sentIds_of_log s _ (s.calls.map fun p => Ev.completed p.2 p.1 false) (by simp [clearAll])
         intro e he
         obtain ⟨p, _, rfl⟩ := List.mem_map.mp he
         rfl
-      · rfl
-      · intro p hp; simp at hp
-      · simp
-      · intro p hp; simp at hp
-      · simp
+      · simp [clearAll]
+      · intro p hp; simp [clearAll] at hp
+      · simp [clearAll]
+      · intro p hp; simp [clearAll] at hp
+      · simp [clearAll]
   | resubscribe =>
     simp only [step]
     split
@@ -490,7 +490,7 @@ theorem reconnect_fails_all (s : St) (order : List Nat) (hre : s.reconnectEnable
     let s' := step s (.reconnectClear order)
     (∀ p ∈ s.calls, Ev.completed p.2 p.1 false ∈ s'.log) ∧ s'.calls = [] ∧ s'.pending = [] ∧ s'.active = [] ∧
     s'.resubQueue = order.filter s.configured.contains := by
-  simp only [step, hre, Bool.not_true, Bool.false_eq_true, if_false]
+  simp only [step, hre, Bool.not_true, Bool.false_eq_true, if_false, clearAll]
   refine ⟨?_, trivial, trivial, trivial, trivial⟩
   intro p hp
   exact List.mem_append_right _ (List.mem_map.mpr ⟨p, hp, rfl⟩)
@@ -508,6 +508,457 @@ theorem resubscribe_one (s : St) (l : Nat) (rest : List Nat) (hq : s.resubQueue 
     simp [this, hc, allocSub]
   · have : s.configured.contains l = false := by simpa using hc
     simp [this, hc]
+
+/-! ### ownership: one server relationship per subscription -/
+
+theorem getSub_update (s s' : St) (l : Nat) (r : SubRec) (h : s'.subs = (l, r) :: s.subs.filter (·.1 != l)) (l' : Nat) :
+    getSub s' l' = if l' = l then r else getSub s l' := by
+  unfold getSub
+  rw [h, List.find?_cons]
+  by_cases e : l' = l
+  · subst e; simp
+  · have e' : ((l, r).1 == l') = false := by simpa using fun h => e h.symm
+    rw [e', if_neg e]
+    congr 2
+    -- find? on the filtered list
+    induction s.subs with
+    | nil => rfl
+    | cons q t ih =>
+      rw [List.filter_cons]
+      by_cases hq : q.1 = l
+      · have h1 : (q.1 != l) = false := by simp [hq]
+        have h2 : (q.1 == l') = false := by simpa [hq] using fun h => e h.symm
+        rw [h1, List.find?_cons, h2]
+        simpa using ih
+      · have h1 : (q.1 != l) = true := by simpa using hq
+        rw [h1]
+        simp only [if_true, List.find?_cons]
+        split
+        · rfl
+        · exact ih
+
+theorem getSub_setSub (s : St) (l : Nat) (r : SubRec) (l' : Nat) :
+    getSub (setSub s l r) l' = if l' = l then r else getSub s l' :=
+  getSub_update s (setSub s l r) l r rfl l'
+
+theorem getSub_default (s : St) (l : Nat) (h : ∀ p ∈ s.subs, p.1 ≠ l) : getSub s l = {} := by
+  unfold getSub
+  have : s.subs.find? (·.1 == l) = none := by
+    rw [List.find?_eq_none]; intro p hp; simpa using h p hp
+  rw [this]; rfl
+
+def resetRec (r : SubRec) : SubRec := { r with pendingReq := none, current := none }
+
+theorem find_map_reset (cfg : Nat → Bool) : ∀ (subs : List (Nat × SubRec)) (l : Nat),
+    ((subs.map fun p => if cfg p.1 then (p.1, resetRec p.2) else p).find? (·.1 == l)).map (·.2) =
+    ((subs.find? (·.1 == l)).map (·.2)).map (fun r => if cfg l then resetRec r else r) := by
+  intro subs
+  induction subs with
+  | nil => intro l; rfl
+  | cons q t ih =>
+    intro l
+    simp only [List.map_cons, List.find?_cons]
+    by_cases hq : q.1 = l
+    · subst hq
+      by_cases hc : cfg q.1 = true
+      · simp [hc]
+      · simp [hc]
+    · have h1 : (q.1 == l) = false := by simpa using hq
+      have h2 : ((if cfg q.1 = true then (q.1, resetRec q.2) else q).1 == l) = false := by
+        split <;> simpa using hq
+      rw [h1, h2]
+      exact ih l
+
+theorem getSub_clearAll (s : St) (order : List Nat) (l : Nat) :
+    getSub (clearAll s order) l = if s.configured.contains l then resetRec (getSub s l) else getSub s l := by
+  unfold getSub
+  have := find_map_reset (fun x => s.configured.contains x) s.subs l
+  have hsubs : (clearAll s order).subs = s.subs.map fun p => if s.configured.contains p.1 then (p.1, resetRec p.2) else p := rfl
+  rw [hsubs, this]
+  cases s.subs.find? (·.1 == l) with
+  | none => simp; intro _; rfl
+  | some p => simp
+
+structure Own (s : St) : Prop where
+  pend : ∀ p ∈ s.pending, (getSub s p.2).pendingReq = some p.1 ∧ p.2 ∈ s.configured
+  act : ∀ p ∈ s.active, (getSub s p.2).current = some p.1 ∧ p.2 ∈ s.configured
+  conf : ∀ l sid w, s.confirming = some (l, sid, w) →
+    (getSub s l).pendingReq = none ∧ (getSub s l).current = none ∧ (getSub s l).requested = true
+  excl : ∀ l, (getSub s l).pendingReq.isSome = true → (getSub s l).current = none
+  fresh : ∀ l, (getSub s l).requested = false → (getSub s l).pendingReq = none ∧ (getSub s l).current = none
+  window : s.resubQueue ≠ [] → s.active = [] ∧ s.confirming = none
+
+theorem own_init (re : Bool) : Own (init re) := by
+  refine ⟨?_, ?_, ?_, ?_, ?_, ?_⟩ <;> simp [init, getSub]
+
+/-- `allocSub l` when `l` is configured and owns no active entry and is not being confirmed -/
+theorem own_allocSub (s : St) (l : Nat) (h : Own s) (hc : l ∈ s.configured)
+    (hna : ∀ p ∈ s.active, p.2 ≠ l) (hnc : ∀ sid w, s.confirming ≠ some (l, sid, w)) (hw : s.resubQueue ≠ [] → s.active = [] ∧ s.confirming = none) :
+    Own (allocSub s l) := by
+  have hg := getSub_update s (allocSub s l) l _ (rfl : (allocSub s l).subs = _)
+  refine ⟨?_, ?_, ?_, ?_, ?_, ?_⟩
+  · intro p hp
+    simp only [allocSub, List.mem_append, List.mem_singleton] at hp
+    rcases hp with hp | hp
+    · have hp' : p ∈ s.pending := mem_stalePending s l p hp
+      have := h.pend p hp'
+      by_cases e : p.2 = l
+      · -- an older request of the same subscription: it was dropped as stale
+        exfalso
+        unfold stalePending at hp
+        simp only [facts.2.2.1, if_true] at hp
+        rw [e] at this
+        rw [this.1] at hp
+        have := (List.mem_filter.mp hp).2
+        simp at this
+      · rw [hg, if_neg e]; exact ⟨this.1, by simpa [allocSub] using this.2⟩
+    · subst hp
+      rw [hg]; simp [allocSub, hc]
+  · intro p hp
+    have hp' : p ∈ s.active := by simpa [allocSub] using hp
+    have := h.act p hp'
+    rw [hg, if_neg (hna p hp')]
+    exact ⟨this.1, by simpa [allocSub] using this.2⟩
+  · intro l' sid w hcf
+    have hcf' : s.confirming = some (l', sid, w) := by simpa [allocSub] using hcf
+    have hne : l' ≠ l := fun e => hnc sid w (e ▸ hcf')
+    rw [hg, if_neg hne]
+    exact h.conf l' sid w hcf'
+  · intro l' hp
+    rw [hg] at hp ⊢
+    by_cases e : l' = l
+    · simp [e]
+    · rw [if_neg e] at hp ⊢; exact h.excl l' hp
+  · intro l' hr
+    rw [hg] at hr ⊢
+    by_cases e : l' = l
+    · simp [e] at hr
+    · rw [if_neg e] at hr ⊢; exact h.fresh l' hr
+  · intro hq
+    have := hw (by simpa [allocSub] using hq)
+    simpa [allocSub] using this
+
+theorem own_addInflightSub (s : St) (l : Nat) (initial : Bool) (h : Own s)
+    (hres : initial = false → s.active = [] ∧ s.confirming = none) : Own (addInflightSub s l initial) := by
+  unfold addInflightSub
+  split
+  · exact h
+  · rename_i hskip
+    have hskip' : skipSub s l initial = false := by simpa using hskip
+    unfold skipSub at hskip'
+    simp only [facts.1, facts.2.1, Bool.and_true, Bool.true_and, Bool.or_eq_false_iff, Bool.and_eq_false_iff,
+      Bool.not_eq_false'] at hskip'
+    have hc : l ∈ s.configured := by simpa using hskip'.2
+    cases hi : initial with
+    | false =>
+      obtain ⟨ha, hcn⟩ := hres hi
+      exact own_allocSub s l h hc (by rw [ha]; intro p hp; cases hp) (by rw [hcn]; intro _ _ e; cases e) h.window
+    | true =>
+      have hreq : (getSub s l).requested = false := by
+        rcases hskip'.1 with h1 | h1
+        · rw [hi] at h1; cases h1
+        · exact h1
+      have hf := h.fresh l hreq
+      refine own_allocSub s l h hc ?_ ?_ h.window
+      · intro p hp e
+        have := (h.act p hp).1
+        rw [e, hf.2] at this; cases this
+      · intro sid w e
+        have := (h.conf l sid w e).2.2
+        rw [hreq] at this; cases this
+
+theorem own_step (s : St) (op : Op) (h : Own s) (hok : okOp s op) : Own (step s op) := by
+  cases op with
+  | call c => exact ⟨h.pend, h.act, h.conf, h.excl, h.fresh, h.window⟩
+  | cancelCall id =>
+    simp only [step]
+    split
+    · exact ⟨h.pend, h.act, h.conf, h.excl, h.fresh, h.window⟩
+    · exact h
+  | subscribe l =>
+    simp only [step]
+    split
+    · exact h
+    · have hfr : ∀ p ∈ s.subs, p.1 ≠ l := hok
+      have hd := getSub_default s l hfr
+      have hg := getSub_setSub s l {}
+      refine ⟨?_, ?_, ?_, ?_, ?_, ?_⟩
+      · intro p hp
+        have hp' : p ∈ s.pending := by simpa [setSub] using hp
+        have := h.pend p hp'
+        have hne : p.2 ≠ l := fun e => by rw [e, hd] at this; cases this.1
+        simp only [] at *
+        rw [show getSub { setSub s l {} with configured := s.configured ++ [l] } p.2 = getSub (setSub s l {}) p.2 from rfl, hg, if_neg hne]
+        exact ⟨this.1, by simp [this.2]⟩
+      · intro p hp
+        have hp' : p ∈ s.active := by simpa [setSub] using hp
+        have := h.act p hp'
+        have hne : p.2 ≠ l := fun e => by rw [e, hd] at this; cases this.1
+        rw [show getSub { setSub s l {} with configured := s.configured ++ [l] } p.2 = getSub (setSub s l {}) p.2 from rfl, hg, if_neg hne]
+        exact ⟨this.1, by simp [this.2]⟩
+      · intro l' sid w hcf
+        have hcf' : s.confirming = some (l', sid, w) := by simpa [setSub] using hcf
+        have := h.conf l' sid w hcf'
+        have hne : l' ≠ l := fun e => by rw [e, hd] at this; cases this.2.2
+        rw [show getSub { setSub s l {} with configured := s.configured ++ [l] } l' = getSub (setSub s l {}) l' from rfl, hg, if_neg hne]
+        exact this
+      · intro l' hp
+        rw [show getSub { setSub s l {} with configured := s.configured ++ [l] } l' = getSub (setSub s l {}) l' from rfl, hg] at hp ⊢
+        by_cases e : l' = l
+        · simp [e]
+        · rw [if_neg e] at hp ⊢; exact h.excl l' hp
+      · intro l' hr
+        rw [show getSub { setSub s l {} with configured := s.configured ++ [l] } l' = getSub (setSub s l {}) l' from rfl, hg] at hr ⊢
+        by_cases e : l' = l
+        · simp [e]
+        · rw [if_neg e] at hr ⊢; exact h.fresh l' hr
+      · intro hq
+        have := h.window (by simpa [setSub] using hq)
+        simpa [setSub] using this
+  | sendSubscribe l => exact own_addInflightSub s l true h (by intro e; cases e)
+  | reply id r =>
+    simp only [step]
+    split
+    · rename_i l hf
+      have hmem : (id, l) ∈ s.pending := by
+        have := List.mem_of_find?_eq_some hf
+        have hid := List.find?_some hf
+        simp only [beq_iff_eq] at hid
+        rw [← hid]; exact this
+      have hpl := h.pend (id, l) hmem
+      have hcur : (getSub s l).current = none := h.excl l (by simp [hpl.1])
+      have hreqd : (getSub s l).requested = true := by
+        by_cases hr : (getSub s l).requested = true
+        · exact hr
+        · have := (h.fresh l (by simpa using hr)).1
+          rw [hpl.1] at this; cases this
+      have hwin : s.resubQueue = [] ∧ s.confirming = none := by
+        cases r with
+        | error => exact hok
+        | result o => cases o with
+          | none => exact hok
+          | some sid => exact ⟨hok.1, hok.2.1⟩
+      have hg := getSub_update s (popSub s id l) l _ (rfl : (popSub s id l).subs = _)
+      have hpop : Own (popSub s id l) := by
+        refine ⟨?_, ?_, ?_, ?_, ?_, ?_⟩
+        · intro p hp
+          have hp' : p ∈ s.pending ∧ p.1 ≠ id := by simpa [popSub] using hp
+          have := h.pend p hp'.1
+          have hne : p.2 ≠ l := fun e => by
+            rw [e, hpl.1] at this
+            exact hp'.2 (by injection this.1 with h'; exact h'.symm)
+          rw [hg, if_neg hne]; exact ⟨this.1, by simpa [popSub] using this.2⟩
+        · intro p hp
+          have hp' : p ∈ s.active := by simpa [popSub] using hp
+          have := h.act p hp'
+          have hne : p.2 ≠ l := fun e => by rw [e, hcur] at this; cases this.1
+          rw [hg, if_neg hne]; exact ⟨this.1, by simpa [popSub] using this.2⟩
+        · intro l' sid w hcf
+          have : s.confirming = some (l', sid, w) := by simpa [popSub] using hcf
+          rw [hwin.2] at this; cases this
+        · intro l' hp
+          rw [hg] at hp ⊢
+          by_cases e : l' = l
+          · simp [e] at hp
+          · rw [if_neg e] at hp ⊢; exact h.excl l' hp
+        · intro l' hr
+          rw [hg] at hr ⊢
+          by_cases e : l' = l
+          · simp [e, hreqd] at hr
+          · rw [if_neg e] at hr ⊢; exact h.fresh l' hr
+        · intro hq
+          have : s.resubQueue ≠ [] := by simpa [popSub] using hq
+          exact absurd hwin.1 this
+      have hgl : getSub (popSub s id l) l = { getSub s l with pendingReq := none, waiter := false } := by rw [hg]; simp
+      cases r with
+      | error => exact ⟨hpop.pend, hpop.act, hpop.conf, hpop.excl, hpop.fresh, hpop.window⟩
+      | result o =>
+        cases o with
+        | none => exact ⟨hpop.pend, hpop.act, hpop.conf, hpop.excl, hpop.fresh, hpop.window⟩
+        | some sid =>
+          refine ⟨hpop.pend, hpop.act, ?_, hpop.excl, hpop.fresh, ?_⟩
+          · intro l' sid' w hcf
+            simp only [afterPop, Option.some.injEq, Prod.mk.injEq] at hcf
+            obtain ⟨rfl, _, _⟩ := hcf
+            show (getSub (popSub s id l) l).pendingReq = none ∧ (getSub (popSub s id l) l).current = none ∧
+              (getSub (popSub s id l) l).requested = true
+            rw [hgl]
+            exact ⟨rfl, hcur, hreqd⟩
+          · intro hq
+            have : s.resubQueue ≠ [] := by simpa [afterPop, popSub] using hq
+            exact absurd hwin.1 this
+    · split
+      · exact ⟨h.pend, h.act, h.conf, h.excl, h.fresh, h.window⟩
+      · exact ⟨h.pend, h.act, h.conf, h.excl, h.fresh, h.window⟩
+  | activate =>
+    simp only [step]
+    split
+    · exact h
+    · rename_i l sid waiter hcf
+      obtain ⟨hp0, hc0, hr0⟩ := h.conf l sid waiter hcf
+      have hq : s.resubQueue = [] := by
+        by_cases e : s.resubQueue = []
+        · exact e
+        · have := (h.window e).2; rw [hcf] at this; cases this
+      by_cases hcfg : (activateChecksConfigured && !s.configured.contains l) = true
+      · simp only [hcfg, if_true]
+        refine ⟨h.pend, h.act, ?_, h.excl, h.fresh, ?_⟩
+        · intro l' sid' w e; cases e
+        · intro e; exact absurd hq e
+      · simp only [hcfg]
+        have hin : l ∈ s.configured := by
+          simp only [facts.2.2.2.1, Bool.true_and, Bool.not_eq_true', Bool.not_eq_false'] at hcfg
+          simpa using hcfg
+        have hg := getSub_update s (activateSub s l sid) l _ (rfl : (activateSub s l sid).subs = _)
+        have hown : Own (activateSub s l sid) := by
+          refine ⟨?_, ?_, ?_, ?_, ?_, ?_⟩
+          · intro p hp
+            have hp' : p ∈ s.pending := by simpa [activateSub] using hp
+            have := h.pend p hp'
+            have hne : p.2 ≠ l := fun e => by rw [e, hp0] at this; cases this.1
+            rw [hg, if_neg hne]; exact ⟨this.1, by simpa [activateSub] using this.2⟩
+          · intro p hp
+            simp only [activateSub, List.mem_cons] at hp
+            rcases hp with rfl | hp
+            · rw [hg]; simp [activateSub, hin]
+            · have hp' : p ∈ s.active := (List.mem_filter.mp hp).1
+              have := h.act p hp'
+              have hne : p.2 ≠ l := fun e => by rw [e, hc0] at this; cases this.1
+              rw [hg, if_neg hne]; exact ⟨this.1, by simpa [activateSub] using this.2⟩
+          · intro l' sid' w e
+            simp [activateSub] at e
+          · intro l' hp
+            rw [hg] at hp ⊢
+            by_cases e : l' = l
+            · simp [e, hp0] at hp
+            · rw [if_neg e] at hp ⊢; exact h.excl l' hp
+          · intro l' hr
+            rw [hg] at hr ⊢
+            by_cases e : l' = l
+            · simp [e, hr0] at hr
+            · rw [if_neg e] at hr ⊢; exact h.fresh l' hr
+          · intro e
+            have : s.resubQueue ≠ [] := by simpa [activateSub] using e
+            exact absurd hq this
+        exact ⟨hown.pend, hown.act, hown.conf, hown.excl, hown.fresh, hown.window⟩
+  | notify sid =>
+    simp only [step]
+    split <;> exact ⟨h.pend, h.act, h.conf, h.excl, h.fresh, h.window⟩
+  | reconnectClear order =>
+    simp only [step]
+    split
+    · exact h
+    · have hconf : s.confirming = none := hok.2.1
+      have hget : ∀ l', getSub (clearAll s order) l' =
+            if s.configured.contains l' then resetRec (getSub s l') else getSub s l' := getSub_clearAll s order
+      refine ⟨by intro p hp; simp [clearAll] at hp, by intro p hp; simp [clearAll] at hp, ?_, ?_, ?_, ?_⟩
+      · intro l' sid w e
+        have : s.confirming = some (l', sid, w) := by simpa [clearAll] using e
+        rw [hconf] at this; cases this
+      · intro l' hp
+        rw [hget] at hp ⊢
+        split
+        · rfl
+        · rename_i hc; rw [if_neg hc] at hp; exact h.excl l' hp
+      · intro l' hr
+        rw [hget] at hr ⊢
+        split
+        · exact ⟨rfl, rfl⟩
+        · rename_i hc; rw [if_neg hc] at hr; exact h.fresh l' hr
+      · intro _; exact ⟨by simp [clearAll], by simpa [clearAll] using hconf⟩
+  | resubscribe =>
+    simp only [step]
+    split
+    · exact h
+    · rename_i l rest hq
+      have hw := h.window (by rw [hq]; simp)
+      have hbase : Own { s with resubQueue := rest } :=
+        ⟨h.pend, h.act, h.conf, h.excl, h.fresh, fun _ => hw⟩
+      exact own_addInflightSub _ l false hbase (fun _ => hw)
+  | unsubscribe l =>
+    simp only [step]
+    refine ⟨?_, ?_, ?_, h.excl, h.fresh, ?_⟩
+    · intro p hp
+      have hp' : p ∈ s.pending := by
+        dsimp only at hp
+        split at hp
+        · exact (List.mem_filter.mp hp).1
+        · exact hp
+      have := h.pend p hp'
+      refine ⟨this.1, ?_⟩
+      have hne : p.2 ≠ l := by
+        intro e
+        dsimp only at hp
+        rw [e] at this
+        rw [this.1] at hp
+        have := (List.mem_filter.mp hp).2
+        simp at this
+      exact List.mem_filter.mpr ⟨this.2, by simpa using hne⟩
+    · intro p hp
+      have hp' : p ∈ s.active := by
+        dsimp only at hp
+        split at hp
+        · exact (List.mem_filter.mp hp).1
+        · exact hp
+      have := h.act p hp'
+      refine ⟨this.1, ?_⟩
+      have hne : p.2 ≠ l := by
+        intro e
+        dsimp only at hp
+        rw [e] at this
+        rw [this.1] at hp
+        have := (List.mem_filter.mp hp).2
+        simp at this
+      exact List.mem_filter.mpr ⟨this.2, by simpa using hne⟩
+    · intro l' sid w e; exact h.conf l' sid w e
+    · intro e
+      have := h.window e
+      dsimp only
+      rw [this.1]
+      exact ⟨by split <;> simp, this.2⟩
+
+theorem own_reach {re : Bool} {s : St} (h : Reach re s) : Own s := by
+  induction h with
+  | init => exact own_init re
+  | step op _ hok ih => exact own_step _ op ih hok
+
+/-- **A notification goes to the subscription that currently owns its server id**: in every reachable state, a
+    frame for server id `sid` is handed to `l` only if `l` is configured and `sid` is `l`'s current server id (which is
+    also the id reported to the consumer). -/
+theorem notify_routes_to_owner {re : Bool} {s : St} (h : Reach re s) (sid l : Nat)
+    (hf : s.active.find? (·.1 == sid) = some (sid, l)) :
+    (step s (.notify sid)).log = s.log ++ [.notified l sid] ∧ l ∈ s.configured ∧ (getSub s l).current = some sid := by
+  have hmem := List.mem_of_find?_eq_some hf
+  have := (own_reach h).act (sid, l) hmem
+  simp [step, hf, this.1, this.2]
+
+/-- **…and to none after it is unsubscribed**: a subscription that is not configured owns no server id, in any
+    reachable state, so no notification is routed to it — whatever raced with the unsubscribe. -/
+theorem unsubscribed_owns_nothing {re : Bool} {s : St} (h : Reach re s) (l : Nat) (hl : l ∉ s.configured) :
+    (∀ p ∈ s.active, p.2 ≠ l) ∧ (∀ p ∈ s.pending, p.2 ≠ l) := by
+  have ho := own_reach h
+  exact ⟨fun p hp e => hl (e ▸ (ho.act p hp).2), fun p hp e => hl (e ▸ (ho.pend p hp).2)⟩
+
+/-- **One server id per subscription**: two active entries of the same subscription carry the same server id, and a
+    subscription with a request outstanding owns no active id. -/
+theorem one_owner {re : Bool} {s : St} (h : Reach re s) (p q : Nat × Nat) (hp : p ∈ s.active) (hq : q ∈ s.active)
+    (hl : p.2 = q.2) : p.1 = q.1 := by
+  have ho := own_reach h
+  have h1 := (ho.act p hp).1
+  have h2 := (ho.act q hq).1
+  rw [hl, h2] at h1
+  injection h1 with h1
+  exact h1.symm
+
+theorem pending_excludes_active {re : Bool} {s : St} (h : Reach re s) (p q : Nat × Nat) (hp : p ∈ s.pending) (hq : q ∈ s.active) :
+    p.2 ≠ q.2 := by
+  have ho := own_reach h
+  intro e
+  have h1 := (ho.pend p hp).1
+  have h2 := (ho.act q hq).1
+  have := ho.excl p.2 (by simp [h1])
+  rw [e, h2] at this
+  cases this
 
 /-- non-vacuity: three callers, replies out of order with a duplicate, a reconnect with one call outstanding -/
 example :
